@@ -37,6 +37,13 @@ def handler(payload):
             out.append(res)
             if os.path.exists(path):
                 os.remove(path)
+        elif kind == "consts":
+            # the running module's numbers and word helpers (validates what tools/py2coq.py reads from the text)
+            out.append(capture(lambda: {
+                "magic": int(preprocess.MAGIC_NUMBER), "version": int(preprocess.CURRENT_VERSION),
+                "with_freq": int(preprocess.CURRENT_VERSION_WITH_FREQ),
+                "to_bytes": [list(preprocess.to_bytes(n)) for n in job["words"]],
+                "to_integer": [int(preprocess.to_integer(bytes(b))) for b in job["strings"]]}))
         elif kind == "read":
             with open(path, "wb") as f:
                 f.write(bytes(job["bytes"]))
